@@ -289,7 +289,7 @@ fn scenarios_base(tier: &str) -> Vec<Scenario> {
 
 pub fn run(tier: &str) -> ! {
 	let mut run = Run::new("C10", tier, "model_checking");
-	let budget = Budget::new(if tier == "thorough" { 3000.0 } else { 100.0 });
+	let budget = Budget::new(if tier == "thorough" { 1500.0 } else { 100.0 });
 	run.set("rule", json!("graph search over histories of InsertTree / ReferenceTree / DereferenceTree on 3 root keys with distinct live roots; tree shapes: leaf root, root+1, root+2 with a depth-3 chain, children given as existing addresses of a live tree (same node twice; under a new child), multipart node data, fan-out 255 (accepted) and 256 at root / inner node (must be rejected); after every event every root is walked through the TreeReader (and the direct-access API where allowed) and compared with the expanded model tree; when all commits are logged, missing model roots must be unreadable and get_num_column_value_entries must equal roots + distinct nodes of the model (zero after all trees are dereferenced)"));
 	run.assumptions = vec![
 		"addresses are implementation choices: existing children are named by (root key, path) and resolved by walking the implementation's own tree at commit time".into(),
